@@ -21,7 +21,10 @@ def generate(seed, tier, enlarged=False):
     n = 300 if tier == 'quick' else 6000
     if enlarged:
         n *= 3
+    wire.GLOBDICT_WEIGHT[0] = 2
     cases = wire.gen_cases(rng, n, ['gen'], 3 if tier == 'quick' else 4)
+    # corpus: known finding K9 (a glob child named only by the initial state is built without the sub-topology)
+    cases.insert(0, {'kind': 'gen', 'procs': [{'parent': [], 'name': 'p0', 'schema': {'$node': {'out': False, 'c': [['pb', {'$node': {'out': False, 'c': [['*', {'$node': {'out': False, 'c': [['w', {'$var': {'default': -3, 'value': None, 'units': None}}], ['z', {'$var': {'default': 0, 'value': None, 'units': None}}]]}}]]}}], ['pd', {'$node': {'out': False, 'c': [['w', {'$var': {'default': 0, 'value': None, 'units': None}}], ['y', {'$var': {'default': 1, 'value': None, 'units': None}}], ['z', {'$var': {'default': 5, 'value': None, 'units': None}}]]}}]]}}, 'topo': [['pb', {'$dict': {'path': None, 'c': [['*', {'$dict': {'path': ['ga'], 'c': [['w', {'$path': ['z']}], ['z', {'$path': ['w']}]]}}]]}}], ['pd', {'$dict': {'path': None, 'c': [['w', {'$path': ['sc', 'sc', 'x']}], ['y', {'$path': ['sc', 'sa', 'w']}], ['z', {'$path': ['sa', 'sa', 'x']}]]}}]]}], 'init': {'sc': {'sc': {'x': 63}}, 'sa': {'sa': {'x': 40}}, 'ga': {'k3': {'w': 179}}}, 'i': 0})
     # malformed stream: a second process redeclares a variable of the first with another _value / _units
     extra = []
     for c in cases[:n // 6]:
@@ -256,10 +259,12 @@ def oracle(c, ob, rng):
                 return None
             d = d[k]
         return d
+    bad_path = ()
     for path, defaults in decl.items():
         built = get(state, path)
         if built is None:
             msgs.append(('declared variable %r does not exist after construction' % (path,), 'declared-missing'))
+            bad_path = path
             break
         given = get(c['init'], path)
         val = built[1] if isinstance(built, list) else built
@@ -269,8 +274,30 @@ def oracle(c, ob, rng):
                 break
         elif val not in defaults and val not in out_defaults:
             msgs.append(('variable %r holds %r, declared defaults are %r' % (path, val, defaults), 'default-ignored'))
+            bad_path = path
             break
+    if msgs and msgs[-1][1] in ('default-ignored', 'declared-missing') and redirecting_glob(c):
+        # known finding K9: a child of a glob port that exists only through the initial state is built from the
+        # sub-schema WITHOUT the sub-topology, so a '*' sub-topology that redirects or renames sub-variables is
+        # ignored for it
+        kids = {tuple(g) + (k,) for g, _ in (wire.prepare(c['procs'], {}) or {}).get('globs', [])
+                for k in (get(c['init'], g) or {})}
+        if any(tuple(bad_path[:len(k)]) == k for k in kids):
+            msgs[-1] = (msgs[-1][0] + ' (child of a glob port named only by the initial state; the sub-topology '
+                        'redirects this sub-variable)', 'glob-child-ignores-subtopology')
     return msgs
+
+
+def redirecting_glob(c):
+    def walk(t):
+        if '$dict' in t:
+            for k, x in t['$dict']['c']:
+                if k == '*' and '$dict' in x and any(e[1].get('$path') != [e[0]] for e in x['$dict']['c']):
+                    return True
+                if walk(x):
+                    return True
+        return False
+    return any(walk(t) for p in c['procs'] for _, t in p['topo'])
 
 
 def run(cases, tier='quick', seed=0):
